@@ -29,9 +29,11 @@ def gen_cases(tier, seed, configs):
         for name, code in pool[:3] + [("random", 2), ("random", 2)]:
             scheds.append((name, code, r.randrange(1, 10 ** 6), r.choice([1, 2, 3, 4, 8, 16])))
         body = ["mark seq", "build bs=%d mode=%d" % (bs, mode), "exec seq flags=%d upper=%d" % (flags, upper), "dump values"]
+        # some executors are constructed while fewer threads are allowed than when they execute (object reused after omp_set_num_threads)
+        cw = [(" cworkers=%d" % r.choice([1, 1, 2])) if (nw > 2 and r.random() < 0.4) else "" for (_, _, _, nw) in scheds]
         for si, (name, code, sd, nw) in enumerate(scheds):
             body += ["mark s%d" % si, "build bs=%d mode=%d" % (bs, mode),
-                     "exec omp flags=%d upper=%d sched=%d seed=%d workers=%d" % (flags, upper, code, sd, nw), "dump values"]
+                     "exec omp flags=%d upper=%d sched=%d seed=%d workers=%d%s" % (flags, upper, code, sd, nw, cw[si]), "dump values"]
         # the StarPU executor under the API-compatible mock runtime (harness/mock_starpu*): same legality rule on data handles
         sp = []
         for name, code in [pool[3], ("random", 2)]:
